@@ -32,7 +32,19 @@ for sid in sorted(x for x in os.listdir(os.path.join(VERIF, 'seeded')) if os.pat
         subprocess.run(['git', '-C', '/repo', 'worktree', 'add', '-q', '--detach', target, 'HEAD'], check=True)
         env['VERIF_REPO'] = target
     try:
-        subprocess.run(['git', '-C', target, 'apply', os.path.join(d, 'patch.diff')], check=True)
+        ap = subprocess.run(['git', '-C', target, 'apply', os.path.join(d, 'patch.diff')], capture_output=True, text=True)
+        if ap.returncode != 0:
+            ap = subprocess.run(['git', '-C', target, 'apply', '-C1', '--recount', os.path.join(d, 'patch.diff')], capture_output=True, text=True)
+        if ap.returncode != 0:
+            # the code the fault was seeded in has since been changed in /repo (a later `fix:` commit): the fault no longer applies
+            rp = os.path.join(VERIF, 'seeded', 'RESULTS.json')
+            allr = json.load(open(rp)) if os.path.exists(rp) else {}
+            prev = allr.get(sid, {})
+            prev['stale'] = 'patch no longer applies to /repo HEAD (%s); last result kept' % subprocess.run(['git', '-C', '/repo', 'rev-parse', '--short', 'HEAD'], capture_output=True, text=True).stdout.strip()
+            allr[sid] = prev
+            json.dump(allr, open(rp, 'w'), indent=1, sort_keys=True)
+            print('%-8s STALE: patch no longer applies' % sid, flush=True)
+            continue
         res = {}
         plist = props or (allp if full else sorted(set([meta['breaks_property'], 'C12']) & set(allp)) or allp)
         for p in plist:
